@@ -659,3 +659,7 @@ CHECK_INPUT = Contract(
     notes="1-D float input; the TypeError path concerns input that cannot be cast and is outside the symbolic input. NaN is the distinguished constant of "
           "A-NAN: the contract requires the NaN test to come before the sign test (a comparison with NaN is not modelled)")
 TASKS.append(FunctionTask(CHECK_INPUT, clauses=["finite non-negative amplitudes: anything else is refused"]))
+
+# process(): the driver registered for the settings' processing method, called once with the caller's recordings (the caller's list, hence its order) and settings
+import contracts.dispatch as _DISPATCH
+TASKS += _DISPATCH.PROCESS_TASKS
